@@ -58,6 +58,8 @@ pub struct Sim {
     pub zombies: std::collections::BTreeSet<u32>,
     /// C11: audit page ownership of the whole file at quiescent points
     pub page_audit: bool,
+    /// a VACUUM has run since the last page audit: no garbage relation may be left
+    vacuumed_since_audit: bool,
 }
 
 fn outcome_line(o: &Out) -> String {
@@ -75,7 +77,7 @@ impl Sim {
     fn new_with(eng: Eng) -> Sim {
         let mut stats = RunStats::default();
         stats.fingerprint = 0xcbf29ce484222325;
-        (Sim { eng, model: Model::new(), txmap: BTreeMap::new(), stats, began_at: BTreeMap::new(), commits_seen: 0, allow_oom: false, allow_d26: false, halted: false, zombies: Default::default(), page_audit: false })
+        (Sim { eng, model: Model::new(), txmap: BTreeMap::new(), stats, began_at: BTreeMap::new(), commits_seen: 0, allow_oom: false, allow_d26: false, halted: false, zombies: Default::default(), page_audit: false, vacuumed_since_audit: false })
     }
 
     pub fn new_served(dir: &std::path::Path, cfg: Cfg, scfg: crate::served::ServedCfg) -> Result<Sim, String> {
@@ -373,6 +375,7 @@ impl Sim {
                     self.stats.bump("sessions_open_across_vacuum");
                 }
                 let out = self.eng.vacuum();
+                self.vacuumed_since_audit = true;
                 self.stats.log(format!("{i} VACUUM => {}", if out.is_err() { outcome_line(&out) } else { "OK".into() }));
                 self.stats.bump("vacuums");
                 match out {
@@ -465,7 +468,20 @@ impl Sim {
             Ok(())
         };
         let mut res: Result<(), String> = Ok(());
+        // relations whose creator aborted are garbage that VACUUM collects: their pages are accounted
+        // for until then, and must be gone right after a VACUUM
+        let dead = d.trees.iter().filter(|t| t.dead).count() as u64;
+        if dead > 0 {
+            self.stats.add("garbage_relations_seen_by_page_audits", dead);
+            if self.vacuumed_since_audit {
+                res = Err(format!("VACUUM left {} behind: its creator aborted, nobody can see it, and its pages are still allocated", d.trees.iter().find(|t| t.dead).map(|t| t.name.clone()).unwrap_or_default()));
+            }
+        }
+        self.vacuumed_since_audit = false;
         'outer: for t in &d.trees {
+            if res.is_err() {
+                break;
+            }
             for n in &t.nodes {
                 if let Err(e) = claim(*n, format!("node of {}", t.name)) {
                     res = Err(e);
